@@ -142,6 +142,10 @@ def udf_series_double(s):
     return s * 2
 
 
+def udf_identity(df):
+    return df
+
+
 def udf_demean(g, col=None):
     g = g.copy()
     g["_dm"] = g[col] - g[col].mean()
@@ -159,6 +163,7 @@ def udf_transform_center(s):
 UDFS = {
     "add_const": udf_add_const,
     "series_double": udf_series_double,
+    "identity": udf_identity,
     "demean": udf_demean,
     "group_range": udf_group_range,
     "transform_center": udf_transform_center,
@@ -532,6 +537,16 @@ def build_op(op, pool, tables, use_knobs=True):
         if sm:
             kw["shuffle_method"] = sm
         return g.transform(fn, **kw)
+    if o == "random_split":
+        rs = np.random.RandomState(op["rs_seed"]) if op.get("rs_kind", "int") == "RandomState" else op["rs_seed"]
+        return x.random_split(op["frac"], random_state=rs, shuffle=op.get("shuffle", False))[op["piece"]]
+    if o == "sample":
+        rs = np.random.RandomState(op["rs_seed"]) if op.get("rs_kind", "int") == "RandomState" else op["rs_seed"]
+        return x.sample(frac=op["frac"], random_state=rs)
+    if o == "clear_divisions":
+        return x.clear_divisions()
+    if o == "preoptimize":
+        return x.optimize(fuse=op.get("fuse", True))
     if o == "persist":
         get = PERSIST_GET or dask.get
         return x.persist(scheduler=get, fuse=op.get("fuse", True))
@@ -660,6 +675,8 @@ FAMILIES = (
     "value_counts",
     "cut",
     "twin",
+    "random",
+    "alias",
 )
 
 
@@ -840,8 +857,16 @@ class Generator:
         depth = 1 + max([self.members[s].depth for s in srcs], default=0)
         m = Member(op["id"], kind, cols, order, labels, nparts, known, root, index_kind, depth)
         self.members[op["id"]] = m
+        if op.get("knob_names"):
+            # partition counts of the inputs: knob vectors are drawn around the selection thresholds they create
+            op["src_nparts"] = [self.members[s_].nparts for s_ in srcs]
         self.recipe["ops"].append(op)
-        self.recipe["det"][str(op["id"])] = m.det()
+        dd = m.det()
+        if op["op"] == "sort_values":
+            dd["sorted"] = {"by": list(op["by"]), "ascending": op.get("ascending", True)}
+        elif op["op"] == "set_index":
+            dd["sorted"] = {"by": None, "ascending": True}
+        self.recipe["det"][str(op["id"])] = dd
         self.next_id += 1
         return m
 
@@ -1309,6 +1334,53 @@ class Generator:
             op = {"op": "legacy_roundtrip", "src": m.id}
         return self.try_add(op, m.order, m.labels, self.next_id, m.index_kind)
 
+    def g_random(self):
+        """Seeded random ops: the result is a function of the seed / RandomState contents, never of task order."""
+        m = self.pick([m for m in self.frames() + self.series() if m.order == "defined"])
+        if not m:
+            return None
+        kind = self.rng.choice(["int", "RandomState", "RandomState"])
+        if self.rng.random() < 0.6:
+            op = {"op": "random_split", "src": m.id, "frac": self.rng.choice([[0.5, 0.5], [0.3, 0.7], [0.2, 0.3, 0.5]]),
+                  "rs_seed": self.rng.randrange(1000), "rs_kind": kind}
+            op["piece"] = self.rng.randrange(len(op["frac"]))
+        else:
+            op = {"op": "sample", "src": m.id, "frac": self.rng.choice([0.3, 0.5, 0.8]), "rs_seed": self.rng.randrange(1000), "rs_kind": kind}
+        return self.try_add(op, m.order, m.labels, self.next_id, m.index_kind)
+
+    def g_alias(self):
+        """Ops whose task returns its input object unchanged (clear_divisions, identity map_partitions) or that re-enter
+        an already optimized (fused) plan: later in-place work on their output would reach the upstream partition."""
+        m = self.pick(self.frames())
+        if not m:
+            return None
+        r = self.rng.random()
+        if r < 0.35:
+            op = {"op": "clear_divisions", "src": m.id}
+        elif r < 0.7:
+            op = {"op": "map_partitions", "src": m.id, "udf": "identity", "kwargs": {}}
+        else:
+            op = {"op": "preoptimize", "src": m.id, "fuse": self.rng.random() < 0.8}
+        a = self.try_add(op, m.order, m.labels, m.root if op["op"] != "preoptimize" else self.next_id, m.index_kind)
+        if a is None or a.kind != "frame":
+            return a
+        # follow with an assign on the alias and bring the original back into the same graph
+        e = self.draw_expr(a)
+        if e is None:
+            return a
+        b = self.try_add({"op": "assign", "src": a.id, "name": "z", "expr": e}, a.order, a.labels, a.root, a.index_kind)
+        if b is None:
+            return a
+        num = [c for c in self.cols_of(m, NUMERIC)]
+        if num and "z" in b.cols and m.order == "defined" and self.rng.random() < 0.7:
+            c = self.rng.choice(num)
+            s1 = self.try_add({"op": "getcol", "src": b.id, "column": "z"}, b.order, b.labels, b.root, b.index_kind)
+            s2 = self.try_add({"op": "getcol", "src": m.id, "column": c}, m.order, m.labels, m.root, m.index_kind)
+            if s1 is not None and s2 is not None:
+                return self.try_add({"op": "binop", "src": [s1.id, s2.id], "fn": "add"}, "defined" if b.order == "defined" else "open",
+                                    b.labels, b.root, b.index_kind)
+        return b
+
     _TWIN_PARAMS = {
         "shift": ("periods", [1, 2, 3, -1]),
         "diff": ("periods", [1, 2, 3]),
@@ -1332,7 +1404,10 @@ class Generator:
         op = self.rng.choice(cands)
         m = self.members[op["id"]]
         clone = {k: v for k, v in op.items() if k != "id"}
-        if op["op"] == "series_map":
+        if op["op"] == "repartition" and op.get("partition_size"):
+            sizes = [x for x in ["100B", "200B", "300B", "500B", "1kiB"] if x != op["partition_size"]]
+            clone["partition_size"] = self.rng.choice(sizes)
+        elif op["op"] == "series_map":
             if "value" not in op:
                 return None
             clone["value"] = op["value"] + 1
